@@ -407,7 +407,9 @@ func (o OneOfSchema[KeyType]) findUnderlyingType(data any) (KeyType, Object, err
 	}
 	for key, ref := range o.TypesValue {
 		underlyingReflectedType := ref.ReflectedType()
-		if underlyingReflectedType == reflectedType {
+		// Several options can be mapped to the same Go type. Pick the same one (the smallest key) every time
+		// instead of the one the map iteration happens to visit last.
+		if underlyingReflectedType == reflectedType && (foundKey == nil || key < *foundKey) {
 			keyValue := key
 			foundKey = &keyValue
 		}
